@@ -350,10 +350,15 @@ func s35Shapes(thorough bool) []s35Shape {
 		"delivery not restricted":                         {seg(func(d *s35Desc) { d.notRestricted = true; d.typeID = 0x22 })},
 		"component mode, 2 components, duration":          {seg(func(d *s35Desc) { d.programSeg = false; d.comps = 2; d.hasDuration = true })},
 		"component mode, 0 components":                    {seg(func(d *s35Desc) { d.programSeg = false; d.comps = 0 })},
-		"multiple UPID (3 and 0 bytes)":                   {seg(func(d *s35Desc) { d.upidType = 0x0D; d.mids = []int{3, 0} })},
-		"sub-segments (type 0x34)":                        {seg(func(d *s35Desc) { d.typeID = 0x34; d.hasSub = true })},
-		"type 0x36 without sub-segments":                  {seg(func(d *s35Desc) { d.typeID = 0x36 })},
-		"foreign, segmentation, foreign":                  {{foreign: true, tag: 0x00, body: 3}, plain, {foreign: true, tag: 0x01, body: 0}},
+		// the component list followed by exactly the five fixed trailing bytes
+		// (no duration, empty UPID, no sub-segments): the exact-fit case of the
+		// component length guard (seed C08f)
+		"component mode, 2 components, minimal tail": {seg(func(d *s35Desc) { d.programSeg = false; d.comps = 2; d.upidType = 0; d.upidLen = 0 })},
+		"component mode, 0 components, minimal tail": {seg(func(d *s35Desc) { d.programSeg = false; d.comps = 0; d.upidType = 0; d.upidLen = 0 })},
+		"multiple UPID (3 and 0 bytes)":              {seg(func(d *s35Desc) { d.upidType = 0x0D; d.mids = []int{3, 0} })},
+		"sub-segments (type 0x34)":                   {seg(func(d *s35Desc) { d.typeID = 0x34; d.hasSub = true })},
+		"type 0x36 without sub-segments":             {seg(func(d *s35Desc) { d.typeID = 0x36 })},
+		"foreign, segmentation, foreign":             {{foreign: true, tag: 0x00, body: 3}, plain, {foreign: true, tag: 0x01, body: 0}},
 		"three descriptors of different shapes": {seg(func(d *s35Desc) { d.cancel = true }),
 			seg(func(d *s35Desc) {
 				d.programSeg = false
